@@ -14,7 +14,8 @@
 //!                the obstacle is removed afterwards (the empty `<next id>/` directory the call leaves behind stays).
 //!                Unlike `K` this observes the real code's own step order: whatever it did before the failing step.
 //!              | E<k>.<v> an event processed by the operator whose process function puts v under k (F / M: plain put)
-//!           keys k ∈ 0..2, values v ∈ 0..9 are indices into fixed tables of names / `Value`s.
+//!           keys k ∈ 0..2, values v ∈ 0..26 are indices into fixed tables of names / `Value`s (`values()`: 0..9 ordinary,
+//!           10..19 edge values that JSON still carries exactly, 20..26 values whose JSON text does not read back).
 //!             | Q (file backend, REAL KILL: the ops up to and including the single kill op run in a CHILD process
 //!               `c20 crash-child <dir> <case>` which `std::process::abort()`s at the armed `verif_crash` point between
 //!               two real syscalls of the real `checkpoint` / `restore`; the parent lists the directory the dead child
@@ -44,10 +45,46 @@ use std::time::Duration;
 
 const KEYS: [&str; 3] = ["alpha", "b/\u{e9}", "k 2"];
 
+/// Whether the generator draws the floats of the table that `serde_json` WITHOUT its `float_roundtrip` feature reads back
+/// one ULP off (value indices 18, 19). The unfixed Cargo.toml of the repository (`serde_json = "1.0"`) restores them as a
+/// different number (finding F-C20c, fix-C20c.patch enables the feature): set to `false` to run against such a tree.
+const INEXACT_FLOATS_IN_POOL: bool = true;
+
+/// number of entries of `values()`
+const NVALS: usize = 27;
+
+fn nest(depth: usize, leaf: Value) -> Value {
+    let mut v = leaf;
+    for d in 0..depth {
+        v = if d % 3 == 2 {
+            let mut m = HashMap::new();
+            m.insert("k".to_string(), v);
+            Value::Object(m)
+        } else {
+            Value::Array(vec![v])
+        };
+    }
+    v
+}
+
+/// 0..9 ordinary values; 10..19 values at the edges of what JSON can carry, which `serde_json` still reads back exactly;
+/// 20..26 values whose JSON text does NOT read back as a `HashMap<String, Value>` (`Model.lossyVal`): one of them in a
+/// checkpoint makes `restore` of that checkpoint an error (never a partial state).
 fn values() -> Vec<Value> {
     let mut obj = HashMap::new();
     obj.insert("x".to_string(), Value::Integer(1));
-    vec![
+    let mut odd = HashMap::new();
+    odd.insert(String::new(), Value::Null);
+    odd.insert("a.b".to_string(), Value::Boolean(false));
+    odd.insert("a/b\u{0}".to_string(), Value::String("Null".to_string()));
+    odd.insert("Number".to_string(), Value::Number(1.0));
+    odd.insert("\u{2028}".to_string(), nest(9, Value::Array(vec![])));
+    let mut bad_obj = HashMap::new();
+    bad_obj.insert(String::new(), Value::Null);
+    bad_obj.insert("a.b".to_string(), Value::Number(f64::NAN));
+    let mut inner = HashMap::new();
+    inner.insert("k".to_string(), Value::Array(vec![Value::Number(f64::INFINITY)]));
+    let v = vec![
         Value::Integer(0),
         Value::Integer(-7),
         Value::String("h\u{e9}llo \"q\" {}\n".to_string()),
@@ -58,11 +95,81 @@ fn values() -> Vec<Value> {
         Value::Object(obj),
         Value::Integer(i64::MAX),
         Value::String(String::new()),
-    ]
+        // 10..19: read back exactly
+        Value::Number(-0.0),
+        Value::Number(f64::MAX),
+        Value::Number(5e-324),
+        Value::Integer(i64::MIN),
+        Value::String("x\u{e9}\u{1F600}".repeat(400)),
+        Value::String("\u{0}\u{1}\u{1f}\u{7f}\u{80}\u{2028}\u{2029}\u{feff}\\ud800 \\u0000 null \u{10ffff}\t\r\n\"/\\".to_string()),
+        Value::Expression("a + b".to_string()),
+        Value::Object(odd),
+        // read back exactly only by a `serde_json` built with `float_roundtrip` (0.1 added ten times; a price-like number)
+        Value::Number(0.9999999999999999),
+        Value::Number(434.29198722896365),
+        // 20..26: do not read back
+        Value::Number(f64::NAN),
+        Value::Number(f64::INFINITY),
+        Value::Number(f64::NEG_INFINITY),
+        Value::Array(vec![Value::Integer(1), Value::Number(f64::NEG_INFINITY)]),
+        Value::Object(bad_obj),
+        nest(70, Value::Integer(1)),
+        Value::Array(vec![Value::Array(vec![Value::Object(inner)])]),
+    ];
+    assert_eq!(v.len(), NVALS);
+    v
+}
+
+/// the value indices a generator may draw besides 0..9; `short`: only those with a small JSON text (a crash analysis
+/// restores at every byte offset of the file)
+fn exotic_pool(short: bool) -> Vec<usize> {
+    let mut p: Vec<usize> = vec![10, 11, 12, 13, 15, 16, 17, 20, 21, 22, 23, 24, 26];
+    if !short {
+        p.extend([14, 25]);
+    }
+    if INEXACT_FLOATS_IN_POOL {
+        p.extend([18, 19]);
+    }
+    p
+}
+
+/// a value index: mostly ordinary (0..9), one in five from the exotic pool
+fn pick_val(rng: &mut Rng, short: bool) -> usize {
+    if rng.chance(1, 5) {
+        *rng.pick(&exotic_pool(short))
+    } else {
+        rng.below(10) as usize
+    }
+}
+
+/// identity of stored values: structural, numbers by BIT PATTERN (`PartialEq` would call NaN unequal to itself and
+/// -0.0 equal to 0.0). `ulp`: numbers one ULP apart count as the same (only for the harness' own reading of a file).
+fn same(a: &Value, b: &Value, ulp: bool) -> bool {
+    match (a, b) {
+        (Value::Number(x), Value::Number(y)) => {
+            x.to_bits() == y.to_bits() || (ulp && x.is_finite() && y.is_finite() && (x.to_bits() as i128 - y.to_bits() as i128).abs() <= 1)
+        }
+        (Value::Array(x), Value::Array(y)) => x.len() == y.len() && x.iter().zip(y).all(|(p, q)| same(p, q, ulp)),
+        (Value::Object(x), Value::Object(y)) => x.len() == y.len() && x.iter().all(|(k, p)| y.get(k).map_or(false, |q| same(p, q, ulp))),
+        (Value::String(x), Value::String(y)) => x == y,
+        (Value::Expression(x), Value::Expression(y)) => x == y,
+        (Value::Integer(x), Value::Integer(y)) => x == y,
+        (Value::Boolean(x), Value::Boolean(y)) => x == y,
+        (Value::Null, Value::Null) => true,
+        _ => false,
+    }
 }
 
 fn code_of(v: &Value, tab: &[Value]) -> String {
-    match tab.iter().position(|x| x == v) {
+    match tab.iter().position(|x| same(x, v, false)) {
+        Some(i) => i.to_string(),
+        None => "99".to_string(),
+    }
+}
+
+/// the harness' own reading of a checkpoint file goes through a float parser that may be one ULP off
+fn code_of_file(v: &Value, tab: &[Value]) -> String {
+    match tab.iter().position(|x| same(x, v, false)).or_else(|| tab.iter().position(|x| same(x, v, true))) {
         Some(i) => i.to_string(),
         None => "99".to_string(),
     }
@@ -99,7 +206,7 @@ fn parse_op(s: &str) -> Option<Op> {
     };
     let v = |i: usize| -> Option<usize> {
         let v = *nums.get(i)? as usize;
-        if v < 10 { Some(v) } else { None }
+        if v < NVALS { Some(v) } else { None }
     };
     Some(match (h, nums.len()) {
         ("P", 2) => Op::Put(k(0)?, v(1)?),
@@ -273,7 +380,7 @@ fn show_file(bytes: &Option<Vec<u8>>, tab: &[Value]) -> String {
             Some(m) => {
                 let mut v = BTreeMap::new();
                 for (k, x) in m.iter() {
-                    v.insert(key_index(k), code_of(x, tab));
+                    v.insert(key_index(k), code_of_file(x, tab));
                 }
                 show_view(&v)
             }
@@ -803,9 +910,9 @@ fn exec(case: &str) -> String {
     if steps.is_empty() { "-".into() } else { steps.join(";") }
 }
 
-fn random_op(rng: &mut Rng, n_ck: usize) -> Op {
+fn random_op(rng: &mut Rng, n_ck: usize, short: bool) -> Op {
     let k = rng.below(3) as usize;
-    let v = rng.below(10) as usize;
+    let v = pick_val(rng, short);
     match rng.below(20) {
         0..=3 => Op::Put(k, v),
         4..=6 => Op::PutTtl(k, v, *rng.pick(&[0u64, 1, 2, 5, 10])),
@@ -879,6 +986,88 @@ fn gen(rng: &mut Rng, n: usize, tier: &str) -> Vec<String> {
         }
         frontier = next;
     }
+    // values whose JSON text does not read back (NaN = 20, an array holding -inf = 23, +inf = 21), next to an ordinary
+    // key: every sequence of length <= 3 over {put NaN, put nested -inf under another key, update to +inf, delete, put
+    // ordinary, checkpoint, restore #0, restore #1} after `put key0`, closed by a crash analysis. A checkpoint that holds
+    // such a value must restore as an error with the live state untouched, never with the other keys only.
+    let alpha_l: Vec<Op> = vec![
+        Op::Put(1, 20),
+        Op::Put(2, 23),
+        Op::Update(1, 21),
+        Op::Delete(1),
+        Op::Put(1, 5),
+        Op::Checkpoint,
+        Op::Restore(0),
+        Op::Restore(1),
+    ];
+    let mut frontier: Vec<Vec<Op>> = vec![vec![Op::Put(0, 1)]];
+    for _ in 0..3 {
+        let mut next = Vec::new();
+        for s in &frontier {
+            for o in &alpha_l {
+                let mut s2 = s.clone();
+                s2.push(o.clone());
+                next.push(s2);
+            }
+        }
+        for ops in &next {
+            let mut ops = ops.clone();
+            ops.push(Op::Crash);
+            out.push(show_case(&Case { real: false, oper: false, file: true, max_ck: 2, ttl: None, ops }));
+        }
+        frontier = next;
+    }
+    // value sweep: EVERY entry of the value table (edge values that read back exactly; values that do not) stored next to
+    // ordinary keys — by put / put_with_ttl / update / a process() event —, checkpointed, the store edited, the checkpoint
+    // restored (complete state, or an error and the edited state untouched), a second checkpoint of the restored state
+    // restored in turn; on the store, through the operator, and with a real kill after the file is written
+    for v in 0..NVALS {
+        if !INEXACT_FLOATS_IN_POOL && (v == 18 || v == 19) {
+            continue;
+        }
+        let long = v == 14 || v == 25;
+        for variant in 0..4usize {
+            let oper = variant == 3;
+            let mut ops = vec![Op::Put(0, 1)];
+            ops.push(match variant {
+                0 => Op::Put(1, v),
+                1 => Op::PutTtl(1, v, 50),
+                2 => Op::Put(1, 0),
+                _ => Op::Event(1, v),
+            });
+            if variant == 2 {
+                ops.push(Op::Update(1, v));
+            }
+            ops.push(Op::Put(2, 5));
+            ops.push(Op::Checkpoint);
+            ops.push(Op::Delete(0));
+            ops.push(Op::Put(2, 3));
+            if variant == 1 {
+                ops.push(Op::Advance(2));
+            }
+            ops.push(Op::Restore(0));
+            ops.push(Op::Checkpoint);
+            ops.push(Op::Delete(2));
+            ops.push(Op::Restore(1));
+            if !long {
+                ops.push(Op::Crash);
+            }
+            out.push(show_case(&Case { real: false, oper, file: true, max_ck: 10, ttl: None, ops }));
+        }
+        // two exotic values in one checkpoint (v and its neighbour in the table)
+        let w = if v + 1 < NVALS { v + 1 } else { 10 };
+        if !(!INEXACT_FLOATS_IN_POOL && (w == 18 || w == 19)) {
+            let ops = vec![Op::Put(0, v), Op::Put(1, w), Op::Put(2, 2), Op::Checkpoint, Op::Clear, Op::Put(1, 4), Op::Restore(0)];
+            out.push(show_case(&Case { real: false, oper: false, file: true, max_ck: 2, ttl: None, ops }));
+        }
+        // real kill at the points after the file is complete (write, push, stamp) and past the end; a new store restores it
+        if v >= 10 {
+            for p in [3u64, 4, 5, 9] {
+                let ops = vec![Op::Put(0, 1), Op::Put(1, v), Op::Kill(p), Op::Advance(1), Op::Put(2, 6), Op::Restore(0), Op::Checkpoint, Op::Restore(1)];
+                out.push(show_case(&Case { real: true, oper: false, file: true, max_ck: 2, ttl: None, ops }));
+            }
+        }
+    }
     // random part: length <= 10, both backends, retention bounds 0..3 and 10, with / without default TTL
     for _ in 0..n {
         let file = rng.chance(9, 10);
@@ -891,7 +1080,7 @@ fn gen(rng: &mut Rng, n: usize, tier: &str) -> Vec<String> {
         let mut ops = Vec::new();
         let mut n_ck = 0;
         for _ in 0..len {
-            let mut o = random_op(rng, n_ck);
+            let mut o = random_op(rng, n_ck, with_crash);
             // one checkpoint in ten (file backend) is interrupted by an I/O error; a third of the puts are events
             if file && matches!(o, Op::Checkpoint) && rng.chance(1, 10) {
                 o = Op::FailCk;
@@ -924,13 +1113,13 @@ fn gen(rng: &mut Rng, n: usize, tier: &str) -> Vec<String> {
         };
         let mut ops = Vec::new();
         for i in 0..n_before {
-            ops.push(Op::Put(rng.below(3) as usize, rng.below(10) as usize));
+            ops.push(Op::Put(rng.below(3) as usize, pick_val(rng, true)));
             if rng.chance(1, 3) {
                 ops.push(Op::Advance(rng.range(0, 2)));
             }
             ops.push(Op::Checkpoint);
             if i + 1 == n_before && rng.chance(1, 2) {
-                ops.push(Op::Put(rng.below(3) as usize, rng.below(10) as usize));
+                ops.push(Op::Put(rng.below(3) as usize, pick_val(rng, true)));
             }
         }
         ops.push(Op::FailCk);
@@ -962,7 +1151,7 @@ fn gen(rng: &mut Rng, n: usize, tier: &str) -> Vec<String> {
         let mut n_ck = 0usize;
         for _ in 0..rng.range(1, 2) {
             for _ in 0..rng.range(0, 2) {
-                let (k, v) = (rng.below(3) as usize, rng.below(10) as usize);
+                let (k, v) = (rng.below(3) as usize, pick_val(rng, false));
                 ops.push(match rng.below(3) {
                     0 => Op::Event(k, v),
                     1 => Op::PutTtl(k, v, rng.range(1, 4)),
@@ -972,7 +1161,7 @@ fn gen(rng: &mut Rng, n: usize, tier: &str) -> Vec<String> {
             ops.push(Op::Checkpoint);
             n_ck += 1;
             for _ in 0..rng.range(0, 2) {
-                let (k, v) = (rng.below(3) as usize, rng.below(10) as usize);
+                let (k, v) = (rng.below(3) as usize, pick_val(rng, false));
                 ops.push(match rng.below(8) {
                     0 => Op::Event(k, v),
                     1 | 2 => Op::Put(k, v),
@@ -998,14 +1187,14 @@ fn gen(rng: &mut Rng, n: usize, tier: &str) -> Vec<String> {
         let n_before = rng.below((max_ck.min(2) + 2) as u64) as usize;
         let mut pre = Vec::new();
         for _ in 0..n_before {
-            pre.push(Op::Put(rng.below(3) as usize, rng.below(10) as usize));
+            pre.push(Op::Put(rng.below(3) as usize, pick_val(rng, false)));
             if rng.chance(1, 3) {
                 pre.push(Op::Advance(rng.range(0, 2)));
             }
             pre.push(Op::Checkpoint);
         }
         for _ in 0..rng.range(0, 2) {
-            let (k, v) = (rng.below(3) as usize, rng.below(10) as usize);
+            let (k, v) = (rng.below(3) as usize, pick_val(rng, false));
             pre.push(match rng.below(5) {
                 0 => Op::PutTtl(k, v, rng.range(0, 4)),
                 1 => Op::Delete(k),
@@ -1019,7 +1208,7 @@ fn gen(rng: &mut Rng, n: usize, tier: &str) -> Vec<String> {
         let mut post = vec![Op::Advance(rng.range(1, 3))];
         let mut n_ids = n_old;
         for _ in 0..rng.range(0, 5) {
-            let (k, v) = (rng.below(3) as usize, rng.below(10) as usize);
+            let (k, v) = (rng.below(3) as usize, pick_val(rng, false));
             post.push(match rng.below(6) {
                 0 | 1 => Op::Put(k, v),
                 2 | 3 => {
@@ -1051,18 +1240,18 @@ fn gen(rng: &mut Rng, n: usize, tier: &str) -> Vec<String> {
         let ttl = if rng.chance(1, 3) { Some(*rng.pick(&[2u64, 4])) } else { None };
         let mut ops = Vec::new();
         let t = rng.range(2, 5);
-        ops.push(Op::PutTtl(0, rng.below(10) as usize, t));
+        ops.push(Op::PutTtl(0, pick_val(rng, false), t));
         if rng.chance(1, 2) {
-            ops.push(Op::Put(1, rng.below(10) as usize));
+            ops.push(Op::Put(1, pick_val(rng, false)));
         }
         ops.push(Op::Advance(rng.range(1, t - 1)));
         if rng.chance(3, 4) {
-            ops.push(Op::Update(0, rng.below(10) as usize));
+            ops.push(Op::Update(0, pick_val(rng, false)));
         }
         // land just before, exactly at, or just after created_at + ttl
         ops.push(Op::Advance(rng.range(0, 3)));
         if rng.chance(1, 3) {
-            ops.push(Op::PutTtl(2, rng.below(10) as usize, rng.range(1, 3)));
+            ops.push(Op::PutTtl(2, pick_val(rng, false), rng.range(1, 3)));
             ops.push(Op::Advance(rng.range(0, 2)));
         }
         ops.push(Op::Checkpoint);
